@@ -1673,6 +1673,7 @@ func c01Selector(r *Run, fn *ssa.Function) {
 		return false
 	}
 	// resolve a chain like (*(*pod.Spec.Affinity).NodeAffinity).Required...: accessPath already looks through loads
+	affFns := map[*ssa.Function]bool{} // repository functions deciding the required-affinity match
 	for _, c := range cases {
 		if !c.Result {
 			continue
@@ -1724,6 +1725,7 @@ func c01Selector(r *Run, fn *ssa.Function) {
 			if cal == nil || !r.Prog.IsRuleSite(cal) {
 				return false
 			}
+			affFns[cal] = true
 			hasNode, hasTerms := false, false
 			for _, a := range call.Call.Args {
 				if a == ssa.Value(node) {
@@ -1740,4 +1742,181 @@ func c01Selector(r *Run, fn *ssa.Function) {
 			"true only if (no node selector ∨ selector matches node labels) ∧ (no required node affinity ∨ node matches its terms)", good,
 			fmt.Sprintf("noSelector=%v selectorMatches=%v noRequiredAffinity=%v affinityMatches=%v", noSelector, selMatch, noAffinity, affMatch))
 	}
+	c01Terms(r, affFns)
+}
+
+// c01Terms (part of R7): a node-selector term counts as matching only if every requirement list it
+// carries was honoured. For every repository function, reachable from the required-affinity check,
+// that ranges over a []NodeSelectorTerm parameter: each iteration that makes the function return
+// true carries, for every slice field F of the term type (MatchExpressions, MatchFields, ...), either
+// len(term.F) == 0 or a selector built from term.F that Matches(...) == true; and true is returned
+// only from inside the scan (an empty list of terms matches nothing).
+func c01Terms(r *Run, affFns map[*ssa.Function]bool) {
+	n := 0
+	seen := map[*ssa.Function]bool{}
+	for _, af := range sortedFuncs(affFns) {
+		for _, fn := range sortedFuncs(r.Prog.reachableFuncs(af)) {
+			if seen[fn] || !r.Prog.IsRuleSite(fn) {
+				continue
+			}
+			seen[fn] = true
+			for _, l := range sliceLoopsC(fn) {
+				pr, ok := l.Slice.(*ssa.Parameter)
+				if !ok {
+					continue
+				}
+				sl, ok := pr.Type().Underlying().(*types.Slice)
+				if !ok || typeName(sl.Elem()) != pkgCoreV1+".NodeSelectorTerm" {
+					continue
+				}
+				st, ok := sl.Elem().Underlying().(*types.Struct)
+				if !ok {
+					continue
+				}
+				var lists []string
+				for i := 0; i < st.NumFields(); i++ {
+					if _, isSl := st.Field(i).Type().Underlying().(*types.Slice); isSl {
+						lists = append(lists, st.Field(i).Name())
+					}
+				}
+				n++
+				k := newKeyer(fn)
+				inLoopReturn := func(b *ssa.BasicBlock) bool { return isReturnBlock(b) && l.In[b] && b != l.Header }
+				stop := func(b *ssa.BasicBlock) bool { return !l.In[b] || b == l.Header }
+				paths, okp := enumPaths(fn, k, l.Body, inLoopReturn, stop, 5000)
+				r.paths += len(paths)
+				pos := r.Prog.Pos(instrPos(l.Header.Instrs[len(l.Header.Instrs)-1]))
+				if !okp {
+					r.Undecided("C01.R7", "node-selector term scan", pos, shortFunc(fn), "path cap exceeded")
+					continue
+				}
+				for _, f := range lists {
+					good, detail, nTrue := true, "", 0
+					for _, p := range paths {
+						ret := returnOf(p.Blocks[len(p.Blocks)-1])
+						res := p.Resolve(ret.Results[0])
+						fs := factSet{}
+						for kk, ff := range p.Facts {
+							fs[kk] = ff
+						}
+						if b, isC := constBool(res); isC {
+							if !b {
+								continue
+							}
+						} else {
+							contra := false
+							for _, nf := range k.normCond(res, true) {
+								if fs.has(nf.Key, !nf.Pol) {
+									contra = true
+								}
+								fs[fkey(nf)] = nf
+							}
+							if contra {
+								continue
+							}
+						}
+						nTrue++
+						isList := func(v ssa.Value) bool { pp, isEl := l.elemPath(k, v); return isEl && pathIsC(pp, f) }
+						empty, matched := c01ListHonoured(fs, isList)
+						if !empty && !matched {
+							// the term may be judged by a repository predicate taking the term: every way that
+							// predicate returns true must honour the list
+							for _, ft := range fs {
+								call, isCall := ft.V.(*ssa.Call)
+								if !isCall || !ft.Pol {
+									continue
+								}
+								h := repoCalleeC(&call.Call)
+								if h == nil {
+									continue
+								}
+								for i, a := range call.Call.Args {
+									if !l.isElem(k, a) || i >= len(h.Params) {
+										continue
+									}
+									hp := h.Params[i]
+									isListH := func(v ssa.Value) bool {
+										root, pp := accessPath(unwrap(v))
+										if al, isA := root.(*ssa.Alloc); isA && spillOfC(al) == ssa.Value(hp) {
+											root = hp
+										}
+										return root == ssa.Value(hp) && pathIsC(pp, f)
+									}
+									alts := r.Prog.funcTrueAlternatives(h, 0)
+									all := len(alts) > 0
+									for _, alt := range alts {
+										e2, m2 := c01ListHonoured(alt, isListH)
+										if !e2 && !m2 {
+											all = false
+										}
+									}
+									if all {
+										matched = true
+									}
+								}
+							}
+						}
+						if !empty && !matched {
+							good = false
+							detail = "a term is accepted on a path with facts: " + descFactsC(fs)
+						}
+					}
+					r.Check("C01.R7", "node-selector term honours "+f, pos, shortFunc(fn),
+						"a node-selector term matches only if its "+f+" list is empty or the selector built from it matches", good && nTrue > 0, detail)
+				}
+				// true only from inside the scan
+				cases, _, okc := boolCasesC(fn, 0, 5000)
+				goodT, detailT := okc, ""
+				for _, c := range cases {
+					if !c.Result {
+						continue
+					}
+					inside := false
+					for _, b := range c.P.Blocks {
+						if b != l.Header && l.In[b] {
+							inside = true
+						}
+					}
+					if !inside {
+						goodT = false
+						detailT = "true is returned without a matching term at " + r.Prog.Pos(instrPos(c.Ret))
+					}
+				}
+				r.Check("C01.R7", "node-selector terms: true needs a matching term", pos, shortFunc(fn), "the term list matches only if some term matched (an empty list matches nothing)", goodT, detailT)
+			}
+		}
+	}
+	if n == 0 {
+		o := r.Check("C01.R7", "node-selector term scan", "-", "-", "the required-affinity match ranges over the terms in repository code", true, "no repository loop over []NodeSelectorTerm: matching is delegated to a dependency")
+		o.Trivial = true
+	}
+}
+
+// c01ListHonoured: the facts say that the requirement list selected by isList is empty, or that a
+// selector derived from it Matches(...) == true.
+func c01ListHonoured(fs factSet, isList func(ssa.Value) bool) (empty, matched bool) {
+	lenOfList := func(v ssa.Value) bool { ln := builtinCallC(v, "len"); return ln != nil && isList(ln.Call.Args[0]) }
+	zero := func(v ssa.Value) bool { z, okz := constInt(v); return okz && z == 0 }
+	for _, ft := range fs {
+		cf, okc := decodeCmpC(ft)
+		if !okc {
+			continue
+		}
+		switch {
+		case cf.Op == "==" && cf.Pol && ((lenOfList(cf.X) && zero(cf.Y)) || (lenOfList(cf.Y) && zero(cf.X))):
+			empty = true
+		case cf.Op == "<" && !cf.Pol && zero(cf.X) && lenOfList(cf.Y): // !(0 < len)
+			empty = true
+		case cf.Op == "==" && cf.Pol && ((isNilConst(cf.X) && isList(cf.Y)) || (isNilConst(cf.Y) && isList(cf.X))):
+			empty = true
+		}
+	}
+	matched = valueFactC(fs, true, func(v ssa.Value) bool {
+		call, isCall := v.(*ssa.Call)
+		if !isCall || !call.Call.IsInvoke() || call.Call.Method.Name() != "Matches" {
+			return false
+		}
+		return dependsOn(call.Call.Value, isList)
+	})
+	return empty, matched
 }
